@@ -45,12 +45,13 @@ def r1_deserialise(ctx):
         "a": {"outputs": ["0"], "inputs": {}, "payload": 1},
         "b": {"outputs": ["0", "o2"], "inputs": {"x": "a"}, "payload": 2},
         "c": {"outputs": [], "inputs": {"y": ["b", "o2"], "z": "a"}, "payload": 3},
-        "t": {"outputs": ["0"], "inputs": {"w": ("b", "o2")}},
+        "t": {"outputs": ["0"], "inputs": {"w": ("b", "o2"), "v": "b"}},
         "iso": {"outputs": ["0"], "inputs": {}, "payload": 5},
     }
     from ..terms import FuncRef
     ip = Interp(repo, call_models=_ts_models(), inline={f"{EXP}._deserialise_node", f"{EXP}.default_node_factory", f"{G}.nodes.Node.__init__",
-                                                         f"{G}.nodes.Node.is_sink", f"{G}.nodes.Node.is_source"})
+                                                         f"{G}.nodes.Node.is_sink", f"{G}.nodes.Node.is_source", f"{G}.nodes.Node.get_output",
+                                                         f"{G}.nodes.Node._make_output", f"{G}.nodes.Output.__init__"})
     paths = ip.explore(fi, args={"data": data, "node_factory": FuncRef(repo.func(f"{EXP}.default_node_factory"))})
     ctx.evals(len(paths))
     if len(paths) == 1 and paths[0].exit[0] == "raise":
@@ -92,8 +93,13 @@ def r1_deserialise(ctx):
         for iname, src in data[nm]["inputs"].items():
             v = ins.get(iname)
             parent, oname = (src, None) if isinstance(src, str) else (src[0], src[1])
-            if not (isinstance(v, App) and v.fname.endswith("Node.get_output") and isinstance(v.args[0], Obj) and v.args[0].args[0] == parent
-                    and (list(v.args[1:]) == ([oname] if oname is not None else []))):
+            if isinstance(v, Obj) and v.cls.endswith("nodes.Output"):
+                par = v.fields.get("parent", v.args[0] if v.args else None)
+                onm = v.fields.get("name", v.args[1] if len(v.args) > 1 else None)
+                if not (isinstance(par, Obj) and par.args and par.args[0] == parent and onm == (oname if oname is not None else "0")):
+                    okk = False
+            elif not (isinstance(v, App) and v.fname.endswith("Node.get_output") and isinstance(v.args[0], Obj) and v.args[0].args[0] == parent
+                      and (list(v.args[1:]) == ([oname] if oname is not None else []))):
                 okk = False
         if not okk:
             ctx.violation("C12.R2", fi.qual, loc(fi), f"inputs of node {nm}", f"node {nm}: inputs written {data[nm]['inputs']} are re-connected as {vkey(ins)[:160]}")
